@@ -11,8 +11,9 @@ CONSTANTS
   Pads = {0, 1, 2, 3}
   Props = {0, 77}
   CtlFroms = {4, 9}
-  CtlSizes = {2}
-  CtlTypes = {2}
+  MemSizes = {2}
+  LockBits = {9, 12}
+  CtlTypes = {1, 2}
   TwoCtl = FALSE
   OldLens = {0, 1, 5, 9}
 INVARIANT RoundTrip
